@@ -261,7 +261,7 @@ def process_model(job, kind, mode, safe):
                       [cb.membrane_area, cb.initial_feed_temperature, cb.initial_feed_amount, cb.initial_feed_composition.p, cb.initial_feed_composition.type,
                        cb.permeate_temperature, cb.permeate_pressure])
                 if not got:
-                    job.vacuity["failed"].append(tag)
+                    job.unreached(tag)
         finally:
             shutil.rmtree(root, ignore_errors=True)
 
@@ -329,7 +329,7 @@ def curve(job, mode):
                         F("permeate_pressure", [Pp], [l.permeate_pressure])
                         F("mixture_and_membrane", [mix.name, "memb"], [l.mixture.name, l.membrane_name])
                     if not got:
-                        job.vacuity["failed"].append(tag)
+                        job.unreached(tag)
             finally:
                 shutil.rmtree(root, ignore_errors=True)
 
